@@ -134,13 +134,18 @@ class _RawReader(io.RawIOBase):
 
 
 class _RawWriter(io.RawIOBase):
-    def __init__(self, fs, q, wfault, cfault):
+    def __init__(self, fs, q, wfault, cfault, append=False):
         self._fs, self._q = fs, q
         self._wfault, self._cfault = wfault, cfault
+        self._append = append
+        self._pos = 0
         self.name = q
 
     def writable(self):
         return True
+
+    def seekable(self):
+        return False
 
     def write(self, b):
         fs = self._fs
@@ -157,14 +162,19 @@ class _RawWriter(io.RawIOBase):
         if cur is None:
             # unlinked/renamed while open: bytes go to the orphaned inode
             return n
+        if self._append:
+            self._pos = len(cur)
         if f is not None:
-            room = f["at"] - len(cur)
+            room = f["at"] - self._pos
             if room <= 0:
                 fs._fire(f)
                 raise OSError(errno.ENOSPC if f["kind"] == "enospc" else errno.EIO,
                               "No space left on device" if f["kind"] == "enospc" else "Input/output error")
             n = min(n, room)
-        cur += data[:n]
+        if self._pos > len(cur):
+            cur += b"\0" * (self._pos - len(cur))
+        cur[self._pos:self._pos + n] = data[:n]
+        self._pos += n
         fs.raw_written[self._q] = fs.raw_written.get(self._q, 0) + n
         fs._note_bytes(n)
         return n
@@ -238,6 +248,7 @@ class SimFS:
         self.handed = {}         # abs path -> [text handed to write()]  (per process; reset by new_process)
         self.raw_written = {}
         self.open_writers = {}
+        self.fds = {}
         self.nsys = 0
         self.dead = False        # after a crash: nothing reaches the disk any more
         self.crashed = False
@@ -288,6 +299,7 @@ class SimFS:
         self.handed = {}
         self.raw_written = {}
         self.open_writers = {}
+        self.fds = {}
         self.nsys = 0
         self.dead = False
         self.crashed = False
@@ -493,12 +505,77 @@ class SimFS:
             return
         self._err(errno.ENOENT, a)
 
+    def p_os_open(self, path, flags, mode=0o777, *, dir_fd=None):
+        """os.open on a virtual path: a fake descriptor that os.fdopen / open(fd) turns into a file object."""
+        q = self._norm(path)
+        acc = flags & (os.O_RDONLY | os.O_WRONLY | os.O_RDWR)
+        if acc == os.O_RDWR:
+            raise SimUnsupported("os.open(%r, O_RDWR)" % (path,))
+        kind = "r" if acc == os.O_RDONLY else ("a" if flags & os.O_APPEND else "w")
+        self._syscall("open", q, extra=kind, mut=(kind != "r"))
+        self._open_checks(q, kind)
+        if kind != "r":
+            if q in self.files:
+                if flags & os.O_EXCL and flags & os.O_CREAT:
+                    self._err(errno.EEXIST, q)
+                if flags & os.O_TRUNC and not self.dead:
+                    self.files[q] = bytearray()
+            else:
+                if not flags & os.O_CREAT:
+                    self._err(errno.ENOENT, q)
+                if not self.dead:
+                    self.files[q] = bytearray()
+        elif q not in self.files:
+            self._err(errno.ENOENT, q)
+        self._next_fd = getattr(self, "_next_fd", 1_000_000) + 1
+        self.fds[self._next_fd] = (q, kind)
+        return self._next_fd
+
+    def _open_checks(self, q, kind):
+        f = self._find_fault(("vanish", "eacces"), q, mode=("r" if kind == "r" else "w"))
+        if f is not None:
+            nth = f.get("nth", 1)
+            f["seen"] = f.get("seen", 0) + 1
+            if f["seen"] == nth:
+                self._fire(f)
+                if f["kind"] == "vanish":
+                    if not self.dead:
+                        self.files.pop(q, None)
+                    self._err(errno.ENOENT, q)
+                self._err(errno.EACCES, q)
+        if q in self.dirs:
+            self._err(errno.EISDIR, q)
+        self._check_parents(q)
+
+    def p_fd_close(self, fd):
+        q, kind = self.fds.pop(fd)
+        self._syscall("close", q)
+
     def p_open(self, file, mode="r", buffering=-1, encoding=None, errors=None, newline=None,
                closefd=True, opener=None):
+        binary = "b" in mode
+        if isinstance(file, int):
+            # open(fd) / os.fdopen(fd) on a descriptor from p_os_open
+            q, fkind = self.fds.pop(file)
+            bs = self.knobs.get("bufsize") or io.DEFAULT_BUFFER_SIZE
+            if fkind == "r":
+                raw = _RawReader(self, q, self.files.get(q, b""), self._find_fault(("eio_read",), q))
+                buf = io.BufferedReader(raw, buffer_size=bs)
+                return buf if binary else io.TextIOWrapper(buf, encoding=encoding or "utf-8", errors=errors, newline=newline)
+            raw = _RawWriter(self, q, self._find_fault(("enospc", "eio_write"), q), self._find_fault(("eio_close",), q),
+                             append=(fkind == "a"))
+            self.open_writers[q] = raw
+            buf = io.BufferedWriter(raw, buffer_size=bs)
+            if binary:
+                return buf
+            t = io.TextIOWrapper(buf, encoding=encoding or "utf-8", errors=errors, newline=newline)
+            cs = self.knobs.get("chunk")
+            if cs:
+                t._CHUNK_SIZE = cs
+            return _RecWriter(self, q, t)
         q = self._norm(file)
         if opener is not None or "+" in mode:
             raise SimUnsupported("open(%r, %r, opener=%r)" % (file, mode, opener))
-        binary = "b" in mode
         kind = [c for c in mode if c in "rwxa"]
         if len(kind) != 1:
             raise ValueError("invalid mode: %r" % mode)
@@ -539,7 +616,8 @@ class SimFS:
         if not self.dead:
             if kind in "wx" or q not in self.files:
                 self.files[q] = bytearray()
-        raw = _RawWriter(self, q, self._find_fault(("enospc", "eio_write"), q), self._find_fault(("eio_close",), q))
+        raw = _RawWriter(self, q, self._find_fault(("enospc", "eio_write"), q), self._find_fault(("eio_close",), q),
+                         append=(kind == "a"))
         self.open_writers[q] = raw
         if binary:
             return io.BufferedWriter(raw, buffer_size=bs)
@@ -586,15 +664,24 @@ class SimFS:
 
         def os_open(path, *a, **k):
             if fs._mine(path):
-                raise SimUnsupported("os.open(%r)" % (path,))
+                return fs.p_os_open(path, *a, **k)
             return real_os_open(path, *a, **k)
 
         os.open = os_open
+        real_os_close = os.close
+        saved["close"] = real_os_close
+
+        def os_close(fd):
+            if fd in fs.fds:
+                return fs.p_fd_close(fd)
+            return real_os_close(fd)
+
+        os.close = os_close
         real_open = builtins.open
         real_io_open = io.open
 
         def sim_open(file, *a, **k):
-            if fs._mine(file):
+            if fs._mine(file) or (isinstance(file, int) and not isinstance(file, bool) and file in fs.fds):
                 return fs.p_open(file, *a, **k)
             return real_open(file, *a, **k)
 
